@@ -1,6 +1,7 @@
 package main
 
 import (
+	"fmt"
 	"strings"
 
 	"golang.org/x/tools/go/ssa"
@@ -10,6 +11,7 @@ func runC14(c *Ctx, r *Report) {
 	r.Rule("C14.R1", "writer/reader agreement per value type: strings are written with strconv.Quote and every escape it emits is decoded by the lexer (shared with C02.R4); Float.Inspect guarantees a float marker; Integer.Inspect is base 10")
 	r.Rule("C14.R2", "one binding per line: SaveGlobals writes each binding with a constant format that ends in exactly one newline and contains no other; the compact printers used for values never write a newline")
 	r.Rule("C14.R3", "sorted, skip-not-truncate: the keys collected from the global map are sorted before use, the printed value is written whole, and the write is confined to the edge where the length limit is not exceeded")
+	r.Rule("C14.R5", "reader capacity: the line reader of AutoLoad imposes no limit on line length (a bufio.Scanner has Buffer called before every Scan with a constant maximum of at least 2^31-1) and consults Scanner.Err() on every path from the scan loop to a return")
 	r.Rule("C14.R4", "constants and built-in identifiers are not saved: every write of SaveGlobals is confined to the false edge of isConstantAndExtraIdentifier(key)")
 
 	sg := c.SSAFn(c.Fn("object", "Environment.SaveGlobals"))
@@ -256,6 +258,103 @@ func runC14(c *Ctx, r *Report) {
 		}
 	}
 	r.Floor("C14.R4", 2)
+
+	// ---- R5 ---- the reader takes lines of any length and notices when it had to stop
+	{
+		al := c.SSAFn(c.Fn("repl", "AutoLoad"))
+		aname := ssaFuncName(al)
+		n := 0
+		eachInstr(al, func(in ssa.Instruction) {
+			call, ok := in.(*ssa.Call)
+			if !ok {
+				return
+			}
+			obj := calleeObj(call)
+			if obj == nil || obj.Pkg() == nil || obj.Pkg().Path() != "bufio" || obj.Name() != "NewScanner" {
+				return
+			}
+			n++
+			var scans, bufs, errsSeen []ssa.Instruction
+			for _, ref := range *call.Referrers() {
+				rc, ok := ref.(*ssa.Call)
+				if !ok || len(rc.Common().Args) == 0 || rc.Common().Args[0] != ssa.Value(call) {
+					continue
+				}
+				if m := calleeObj(rc); m != nil {
+					switch m.Name() {
+					case "Scan":
+						scans = append(scans, rc)
+					case "Buffer":
+						bufs = append(bufs, rc)
+					case "Err":
+						errsSeen = append(errsSeen, rc)
+					}
+				}
+			}
+			// line length
+			okLen, why := false, "the scanner keeps bufio's default 64 KiB line limit, but SaveGlobals writes a binding of any length on one line (functions always, values when the length limit is 0): the first longer line ends the load silently and every later binding is dropped"
+			if len(bufs) > 0 {
+				okLen, why = true, ""
+				for _, b := range bufs {
+					bc := b.(*ssa.Call)
+					k, isK := constInt(bc.Common().Args[2])
+					switch {
+					case !isK:
+						okLen, why = false, "the scanner's line limit is a run-time value ("+bc.Common().Args[2].String()+"): the writer's lines are `name=value` and whole functions, longer than any limit on the value alone, and the first longer line ends the load silently"
+					case k < 1<<31-1:
+						okLen, why = false, fmt.Sprintf("the scanner's line limit is %d bytes; SaveGlobals writes lines of any length", k)
+					}
+				}
+				if okLen {
+					isBuf := func(x ssa.Instruction) bool {
+						for _, b := range bufs {
+							if x == b {
+								return true
+							}
+						}
+						return false
+					}
+					isScan := func(x ssa.Instruction) bool {
+						for _, sc := range scans {
+							if x == sc {
+								return true
+							}
+						}
+						return false
+					}
+					if mustPassBefore(call, isBuf, isScan) != nil {
+						okLen, why = false, "a Scan is reachable without Scanner.Buffer having been called (default 64 KiB line limit)"
+					}
+				}
+			}
+			if len(scans) == 0 {
+				okLen, why = false, "the scanner is never advanced"
+			}
+			r.Check(okLen, "C14.R5", aname, "the line reader accepts lines of any length", c.Pos(call.Pos()), why)
+			// read errors are noticed: Err() is consulted on every path from the loop to a return
+			okErr := len(errsSeen) > 0
+			whyErr := "Scanner.Err() is never consulted: a read error or an over-long line ends the load as if the file were complete, and the next save rewrites the file without the rest"
+			if okErr && len(scans) > 0 {
+				bad := mustPassBefore(scans[0], func(x ssa.Instruction) bool {
+					for _, e := range errsSeen {
+						if x == e {
+							return true
+						}
+					}
+					return false
+				}, isReturn)
+				if bad != nil {
+					okErr, whyErr = false, "a return is reachable after scanning without consulting Scanner.Err()"
+				}
+			}
+			r.Check(okErr, "C14.R5", aname, "a scan that stops early is noticed (Scanner.Err)", c.Pos(call.Pos()), whyErr)
+		})
+		if n == 0 {
+			// another reader (bufio.Reader.ReadString, os.ReadFile) has no line limit; nothing to check
+			r.OkWhy("C14.R5", aname, "the line reader accepts lines of any length", c.Pos(al.Pos()), "AutoLoad does not use a bufio.Scanner")
+		}
+		r.Floor("C14.R5", 1)
+	}
 }
 
 func init() {
